@@ -1,6 +1,71 @@
 import WhVerif.Util.Proto
+import WhVerif.Model.C19
+import WhVerif.Model.C19Edit
+import WhVerif.Spec.C19
 namespace WhVerif.Driver.C19
-open Lean WhVerif.Proto
-/-- ops of property C19 are named `c19.<name>`; return `none` for ops that are not ours -/
-def handle (_op : String) (_j : Json) : Option Json := none
+open Lean WhVerif.Proto WhVerif.C19
+
+def errJson : Err → Json
+  | .ploidy => Json.mkObj [("err", Json.str "ploidy")]
+  | .alleles => Json.mkObj [("err", Json.str "alleles")]
+  | .unsorted => Json.mkObj [("err", Json.str "unsorted")]
+
+/-- everything observable of one genotype: vector, index, ploidy, state, vector after restore(save) -/
+def genoJson (g : Genotype) : Json :=
+  let st := g.getState
+  let restored : Json := match Genotype.setState st with
+    | .ok r => Json.mkObj [("vector", ofNatList r.asVector), ("eq", Json.bool (r.eq g))]
+    | .error e => errJson e
+  Json.mkObj [("vector", ofNatList g.asVector), ("index", ofNat g.getIndex), ("ploidy", ofNat g.getPloidy),
+    ("state", ofNatList [st.1, st.2]), ("restored", restored)]
+
+def handle (op : String) (j : Json) : Option Json :=
+  if op == "c19.binom" then
+    match getInt? j "n", getInt? j "k" with
+    | some n, some k =>
+      some (Json.mkObj [("value", ofInt (binomInt n k)),
+                        ("peak", ofNat (if n < 0 ∨ k < 0 then 0 else binomPeak n.toNat k.toNat))])
+    | _, _ => some badInput
+  else if op == "c19.geno" then
+    match getNatList? j "alleles" with
+    | some a => some (match Genotype.ofAlleles a with | .ok g => genoJson g | .error e => errJson e)
+    | none => some badInput
+  else if op == "c19.index" then
+    -- list-level get_index of an ascending allele list
+    match getNatList? j "alleles" with
+    | some a => some (ofNat (getIndexL a))
+    | none => some badInput
+  else if op == "c19.alleles" then
+    match getNat? j "index", getNat? j "ploidy" with
+    | some i, some p =>
+      let raw := indexToAlleles i p
+      some (Json.mkObj [("raw", ofNatList raw),
+        ("geno", match Genotype.setState (i, p) with | .ok g => genoJson g | .error e => errJson e)])
+    | _, _ => some badInput
+  else if op == "c19.cmp" then
+    match getNatList? j "a", getNatList? j "b" with
+    | some a, some b =>
+      match Genotype.ofAlleles a, Genotype.ofAlleles b with
+      | .ok g, .ok h => some (Json.mkObj [("eq", Json.bool (g.eq h)), ("ne", Json.bool (g.ne h)), ("lt", Json.bool (g.lt h))])
+      | _, _ => some badInput
+    | _, _ => some badInput
+  else if op == "c19.enum" then
+    -- model: alleles of every index below the count; spec: VCF order and count
+    match getNat? j "ploidy", getNat? j "alleles" with
+    | some p, some a =>
+      let cnt := Spec.multichoose p a
+      some (Json.mkObj [("count", ofNat cnt),
+        ("model", ofList ofNatList ((List.range cnt).map (fun i => indexToAlleles i p))),
+        ("spec", ofList ofNatList (Spec.vcfOrder p a))])
+    | _, _ => some badInput
+  else if op == "c19.lev" then
+    match getNatList? j "s", getNatList? j "t" with
+    | some s, some t => some (ofNat (Spec.lev s t))
+    | _, _ => some badInput
+  else if op == "c19.edit" then
+    -- results of edit_distance(s, t, maxdiff) for every maxdiff in "bands"
+    match getNatList? j "s", getNatList? j "t", getIntList? j "bands" with
+    | some s, some t, some bs => some (ofNatList (bs.map (fun e => editDistance s t e)))
+    | _, _, _ => some badInput
+  else none
 end WhVerif.Driver.C19
